@@ -681,6 +681,42 @@ func TestTrees(t *testing.T) {
 	})
 }
 
+// very wide and wide-and-deep values: counters that are meant to bound the depth must not count siblings
+// (added after seeded change C15-s7: a group-member-set with 10000 hrefs is a legitimate value)
+func TestWide(t *testing.T) {
+	if vev.ReplayFile() != "" {
+		t.Skip()
+	}
+	var docs []string
+	for _, n := range []int{9999, 10000, 10001, 25000} {
+		docs = append(docs, `<D:group-member-set xmlns:D="DAV:">`+strings.Repeat(`<D:href>/p/u</D:href>`, n)+`</D:group-member-set>`)
+	}
+	// 60 levels, each entered through its 200th child
+	var b strings.Builder
+	for l := 0; l < 60; l++ {
+		b.WriteString(`<l xmlns="urn:wide">` + strings.Repeat(`<s/>`, 199))
+	}
+	b.WriteString(`<leaf xmlns="urn:wide">x</leaf>`)
+	for l := 0; l < 60; l++ {
+		b.WriteString(`</l>`)
+	}
+	docs = append(docs, b.String())
+	for i, d := range docs {
+		if !vev.MyShare(i) {
+			continue
+		}
+		c := Case{Mode: "tree", Depth: 0, Doc: d}
+		rec.Case("wide", true, d, func() any { return map[string]any{"mode": "tree", "doc": fmt.Sprintf("%.120s... (%d bytes)", d, len(d))} })
+		o, err := evaluate(c)
+		if err != nil {
+			t.Fatalf("harness: %v", err)
+		}
+		if !o.OK() && !rec.Known(o.Sig) {
+			rec.Violation(t, o.Sig, "c15", c, "%s", o.Msg)
+		}
+	}
+}
+
 func TestTreesBareNamespaceNames(t *testing.T) {
 	if vev.ReplayFile() != "" {
 		t.Skip()
